@@ -36,7 +36,9 @@ RULE = (
     "geometry cases: seeded matrix shape class{square even/odd, tall, wide, mixed parity, tiny 6..9} x scan-angle class{0,90,180,270,random "
     "in [0,360), per-image different angles} x pad class{0, 0.1, 0.25, 0.5, random 0..0.5}, stacks of 2..4 images, KDE sigma 0.3..2, every case "
     "preprocessed with 1, 2, 3 and 4 knots and followed by a history on the same object (2..4 of: warp_image with upsample_factor 2/3, "
-    "generate_corrected_image, plain warp_image, repeated transform_coordinates) with closed form, weights and previously returned arrays re-checked after every step; fixed-point cases: identical stacks of 2..4 x upsample_factor{1,2,3,4,5,7,8,16} x knots{1..4} x "
+    "generate_corrected_image, plain warp_image, repeated transform_coordinates) with closed form, weights and previously returned arrays re-checked after every step; half of all cases run on a re-used DriftCorrection object (it first served another acquisition, is re-configured through the public "
+    "setters scan_direction_degrees / images / pad_fraction / kde_sigma, hits one of 13 invalid calls that raise, and is preprocessed again); "
+    "fixed-point cases: pad_value in every accepted form, identical stacks of 2..4 x upsample_factor{1,2,3,4,5,7,8,16} x knots{1..4} x "
     "angle class x image family{uniform noise, zero-mean noise, blobs+noise, band-limited}. non-trivial = rows != cols or angle not a "
     "multiple of 90 degrees; distinct = (kind, shape class, angle class, pad class | upsample factor, knots, family)"
 )
@@ -77,13 +79,13 @@ def plan(tier, seed):
     reps = 2 if tier == "quick" else 60
     for rep in range(reps):
         for shp, ang, pad in itertools.product(SHAPES, ANGLES, PADS):
-            geom.append({"kind": "geom", "shape": shp, "angle": ang, "pad": pad})
+            geom.append({"kind": "geom", "shape": shp, "angle": ang, "pad": pad, "reused": (len(geom) + rep) % 2 == 1})
     reps = 3 if tier == "quick" else 60
     k = 0
     for rep in range(reps):
         for up, K, ang in itertools.product(UPS, [1, 2, 3, 4], ANGLES[:5]):
             k += 1
-            fixed.append({"kind": "fixed", "up": up, "knots": K, "angle": ang, "shape": SHAPES[(k + rep) % len(SHAPES)], "pad": PADS[(k // 2 + rep) % len(PADS)], "family": FAMILIES[(k // 3 + rep) % len(FAMILIES)]})
+            fixed.append({"kind": "fixed", "up": up, "knots": K, "angle": ang, "shape": SHAPES[(k + rep) % len(SHAPES)], "pad": PADS[(k // 2 + rep) % len(PADS)], "family": FAMILIES[(k // 3 + rep) % len(FAMILIES)], "reused": (k + rep) % 2 == 1})
     # interleave the two kinds so that a time-budget cut on a loaded machine trims both evenly
     specs = []
     for i in range(max(len(geom), len(fixed))):
@@ -280,6 +282,76 @@ def _object_history(ctx, rng, dc, shape, canvas, angles, sigma, common, returned
     ctx.count("history_ops", len(done))
 
 
+ERROR_STEPS = ["knots_none", "knots_str", "knots_zero", "knots_negative", "pad_value_2", "pad_value_dict", "pad_value_long_list", "pad_fraction_str", "kde_sigma_none", "too_few_directions", "align_bad_factor", "directions_2d", "images_1d"]
+
+
+def _error_step(ctx, rng, dc, n, valid_kw, directions, name=None):
+    """A public call that raises on the unchanged code (bad argument), caught here; the object must stay usable and a later
+    valid preprocess must give the same geometry as on a fresh object.  `directions` = the scan directions the object is
+    supposed to have afterwards (restored when the step had to change them)."""
+    name = name or ERROR_STEPS[int(rng.integers(len(ERROR_STEPS)))]
+    kw = dict(valid_kw)
+    raised = False
+    try:
+        with warnings.catch_warnings():
+            warnings.simplefilter("ignore")
+            if name == "knots_none":
+                kw["number_knots"] = None
+                dc.preprocess(**kw)
+            elif name == "knots_str":
+                kw["number_knots"] = "x"
+                dc.preprocess(**kw)
+            elif name == "knots_zero":
+                kw["number_knots"] = 0
+                dc.preprocess(**kw)
+            elif name == "knots_negative":
+                kw["number_knots"] = -1
+                dc.preprocess(**kw)
+            elif name == "pad_value_2":
+                kw["pad_value"] = 2.0
+                dc.preprocess(**kw)
+            elif name == "pad_value_dict":
+                kw["pad_value"] = {}
+                dc.preprocess(**kw)
+            elif name == "pad_value_long_list":
+                kw["pad_value"] = [0.1] * (n + 1)
+                dc.preprocess(**kw)
+            elif name == "pad_fraction_str":
+                kw["pad_fraction"] = "a"
+                dc.preprocess(**kw)
+            elif name == "kde_sigma_none":
+                kw["kde_sigma"] = None
+                dc.preprocess(**kw)
+            elif name == "too_few_directions":
+                dc.scan_direction_degrees = list(directions)[: n - 1]
+                dc.preprocess(**kw)
+            elif name == "align_bad_factor":
+                dc.align_translation(upsample_factor="x", show_merged=False)
+            elif name == "directions_2d":
+                dc.scan_direction_degrees = [[1.0, 2.0], [3.0, 4.0]]
+            elif name == "images_1d":
+                dc.images = [np.zeros(5)]
+    except Exception:  # noqa: BLE001  (expected: invalid argument)
+        raised = True
+    if not raised:
+        ctx.count("observed:invalid_call_did_not_raise:" + name)
+    ctx.count("error_step:" + name)
+    if name in ("too_few_directions", "directions_2d"):
+        dc.scan_direction_degrees = list(directions)
+    return name
+
+
+def _previous_life(D, rng, shape, n, same_n=True):
+    """A DriftCorrection that has already been used for *another* acquisition: other frames (different medians), other scan
+    directions, other padding / KDE width / knot count; sometimes another frame shape or frame count."""
+    shp = shape if rng.random() < 0.7 else (shape[0] + int(rng.integers(1, 4)), max(6, shape[1] - int(rng.integers(1, 3))))
+    m = n if (same_n or rng.random() < 0.7) else int(rng.integers(2, 5))
+    frames = [rng.random(shp) * float(rng.uniform(0.5, 2.0)) + float(rng.uniform(0.0, 3.0)) for _ in range(m)]
+    dirs = [float(rng.choice([0.0, 90.0, 180.0, 270.0, rng.uniform(0, 360)])) for _ in range(m)]
+    dc = D.DriftCorrection.from_data(frames, dirs)
+    return dc, m
+
+
 def _run_geom(spec, idx, ctx):
     D = ctx.state["D"]
     rng = ctx.rng(idx)
@@ -295,11 +367,36 @@ def _run_geom(spec, idx, ctx):
     square = shape[0] == shape[1]
     coords = {}
     canvas0 = None
+    reused = bool(spec.get("reused"))
+    dc_life = None
     for K in (1, 2, 3, 4):
-        common = {"knots": K, "square": square, "angle_class": spec["angle"], "pad_class": spec["pad"], "right_angle": not any(angle_is_nontrivial(a) for a in angles)}
+        common = {"knots": K, "reused_object": reused, "square": square, "angle_class": spec["angle"], "pad_class": spec["pad"], "right_angle": not any(angle_is_nontrivial(a) for a in angles)}
+        valid_kw = dict(pad_fraction=pad, pad_value=pad_value, kde_sigma=sigma, number_knots=K)
+        if reused:
+            # the same object is re-configured through its public setters, hits an invalid call, and is preprocessed again
+            if dc_life is None or rng.random() < 0.5:
+                if dc_life is None:
+                    dc_life, _m = _previous_life(D, rng, shape, n)
+                else:  # detour: another acquisition on the same object between two knot counts
+                    dc_life.scan_direction_degrees = [float(rng.uniform(0, 360)) for _ in range(n)]
+                with warnings.catch_warnings():
+                    warnings.simplefilter("ignore")
+                    dc_life.preprocess(pad_fraction=float(rng.uniform(0, 0.5)), pad_value=["median", "mean", "max", 0.5][int(rng.integers(4))], kde_sigma=float(rng.uniform(0.3, 2.0)), number_knots=int(rng.integers(1, 5)))
+                    if rng.random() < 0.3:
+                        dc_life.align_translation(upsample_factor=1, show_merged=False)
+                dc_life.scan_direction_degrees = list(angles)
+                dc_life.images = [im.copy() for im in images]
+                if rng.random() < 0.5:
+                    dc_life.pad_fraction = pad
+                    dc_life.kde_sigma = sigma
+            err = _error_step(ctx, rng, dc_life, n, valid_kw, angles, name=ERROR_STEPS[(idx + K) % len(ERROR_STEPS)] if rng.random() < 0.6 else None)
+            common["after_error"] = err
         ctx.state["tc_log"] = []
         try:
-            dc = D.DriftCorrection.from_data([im.copy() for im in images], list(angles)).preprocess(pad_fraction=pad, pad_value=pad_value, kde_sigma=sigma, number_knots=K)
+            if reused:
+                dc = dc_life.preprocess(**valid_kw)
+            else:
+                dc = D.DriftCorrection.from_data([im.copy() for im in images], list(angles)).preprocess(**valid_kw)
         finally:
             tc_log, ctx.state["tc_log"] = ctx.state["tc_log"], None
         canvas = tuple(int(v) for v in dc.shape[1:])
@@ -345,7 +442,7 @@ def _run_geom(spec, idx, ctx):
             _weights_checks(ctx, dc.weights_warped.array[i], shape, canvas, angles[i], sigma, xa_e, ya_e, wcommon, "preprocess")
         _object_history(ctx, rng, dc, shape, canvas, angles, sigma, common, returned)
     nontriv = (not square) or any(angle_is_nontrivial(a) for a in angles)
-    ctx.nontrivial(("geom", spec["shape"], spec["angle"], spec["pad"]), nontriv)
+    ctx.nontrivial(("geom", spec["shape"], spec["angle"], spec["pad"], reused), nontriv)
     ctx.observe(shape=list(shape), angles=angles, pad=pad, canvas=list(canvas0), sigma=sigma, n=n)
 
 
@@ -359,9 +456,38 @@ def _run_fixed(spec, idx, ctx):
     sigma = float(rng.uniform(0.3, 2.0))
     K, up = spec["knots"], spec["up"]
     im = gen_image(rng, shape, spec["family"])
-    pad_value = ["median", "mean", "min", "max"][int(rng.integers(4))]
-    common = {"knots": K, "up": up, "upsampled": up > 1, "square": shape[0] == shape[1], "family": spec["family"], "angle_class": spec["angle"]}
-    dc = D.DriftCorrection.from_data([im.copy() for _ in range(n)], [angle] * n).preprocess(pad_fraction=pad, pad_value=pad_value, kde_sigma=sigma, number_knots=K)
+    # every accepted form of pad_value; a list must hold the same value for every (identical) frame or the stack is no fixed point
+    pv_form = ["median", "mean", "min", "max", "quantile_float", "quantile_int", "list"][int(rng.integers(7))]
+    pad_value = {"quantile_float": float(rng.choice([0.25, 0.5, 0.9])), "quantile_int": int(rng.integers(0, 2)), "list": [float(np.median(im))] * n}.get(pv_form, pv_form)
+    reused = bool(spec.get("reused"))
+    common = {"knots": K, "up": up, "upsampled": up > 1, "square": shape[0] == shape[1], "family": spec["family"], "angle_class": spec["angle"], "reused_object": reused, "pad_value_form": pv_form}
+    valid_kw = dict(pad_fraction=pad, pad_value=pad_value, kde_sigma=sigma, number_knots=K)
+    if reused:
+        # the object first serves a different stack (frames with different statistics) with the same arguments, then receives the
+        # identical stack through the public setters and is preprocessed again
+        dc, m = _previous_life(D, rng, shape, n, same_n=rng.random() < 0.7)
+        kw0 = dict(valid_kw)
+        if pv_form == "list":
+            kw0["pad_value"] = [float(rng.uniform(0, 3)) for _ in range(m)]
+        with warnings.catch_warnings():
+            warnings.simplefilter("ignore")
+            dc.preprocess(**kw0)
+            if rng.random() < 0.5:
+                dc.align_translation(upsample_factor=int(rng.choice([1, 2, 4])), show_merged=False)
+        if rng.random() < 0.5:
+            dc.images = [im.copy() for _ in range(n)]
+            dc.scan_direction_degrees = [angle] * n
+        else:
+            dc.scan_direction_degrees = [angle] * n
+            dc.images = [im.copy() for _ in range(n)]
+        if rng.random() < 0.35:
+            common["after_error"] = _error_step(ctx, rng, dc, n, valid_kw, [angle] * n)
+        dc.preprocess(**valid_kw)
+    else:
+        dc = D.DriftCorrection.from_data([im.copy() for _ in range(n)], [angle] * n).preprocess(**valid_kw)
+    # identical frames resampled with the same geometry must give identical canvases (premise of the fixed point)
+    W = np.asarray(dc.images_warped.array, dtype=np.float64)
+    ctx.close(float(np.max(np.abs(W - W[0]))) / max(float(np.max(np.abs(W[0]))), 1e-300), 1e-6, "identical_frames_resampled_differently", lambda: "identical stack n=%d shape %s pad_value=%r (object reused: %s): the initial warped images differ; pad values %r" % (n, shape, pad_value, reused, list(getattr(dc, "pad_value", []))), **common)
     before = [np.array(k, dtype=np.float64, copy=True) for k in dc.knots]
     kw = {}
     r = rng.random()
@@ -403,7 +529,7 @@ def _run_fixed(spec, idx, ctx):
         xr, yr = np.asarray(xr, dtype=np.float64), np.asarray(yr, dtype=np.float64)
         if xr.shape == tuple(shape):
             ctx.close(max(np.abs(xr - xa_e).max(), np.abs(yr - ya_e).max()), 2 * TOL_FIXED, "fixed_point_coords_left_closed_form", lambda: "identical stack shape %s angle %.4f knots %d up %d: coordinates of image %d after align/generate/align differ from the closed form" % (shape, angle, K, up, i), **common)
-    ctx.nontrivial(("fixed", spec["shape"], spec["angle"], up, K, spec["family"]), shape[0] != shape[1] or angle_is_nontrivial(angle))
+    ctx.nontrivial(("fixed", spec["shape"], spec["angle"], up, K, spec["family"], reused), shape[0] != shape[1] or angle_is_nontrivial(angle))
     ctx.observe(shape=list(shape), angle=angle, pad=pad, n=n, sigma=sigma, knots_moved=moved, measured_shifts=[s.tolist() for s in (cc_log or [])], kwargs=kw)
 
 
